@@ -21,8 +21,10 @@ BOUND = 2 ** 62
 RANKS = (1, 2, 3, 4, 5)
 
 
-def setup_dims(wp, R, name='dims'):
-    """symbolic dims with the tensor invariant: every extent >= 0 and every suffix product <= 2^62"""
+def setup_dims(wp, R, name='dims', signed=False):
+    """symbolic dims with the tensor invariant: every extent >= 0 and every suffix product <= 2^62
+    (signed=True: extents of either sign -- reshape passes its requested sizes, one of which may be -1, to size() --
+    with every suffix product in [-2^62, 2^62])"""
     declare_array(wp, name, R)
     P = [wp.const(f'P{k}', 'Int', 'long') for k in range(R + 1)]
     wp.P = [p.t for p in P]
@@ -30,10 +32,13 @@ def setup_dims(wp, R, name='dims'):
     wp.assume(f'(= {wp.P[R]} 1)')
     for k in range(R):
         d = wp.env[f'{name}.{k}'].t
-        wp.assume(f'(>= {d} 0)')
         wp.assume(f'(= {wp.P[k]} (* {d} {wp.P[k + 1]}))')
         wp.assume(f'(<= {wp.P[k]} {BOUND})')
-        wp.assume(f'(>= {wp.P[k]} 0)')
+        if signed:
+            wp.assume(f'(>= {wp.P[k]} (- {BOUND}))')
+        else:
+            wp.assume(f'(>= {d} 0)')
+            wp.assume(f'(>= {wp.P[k]} 0)')
     wp.dims_name = name
 
 
@@ -43,6 +48,13 @@ def F(wp, k, idx):
     if not terms:
         return '0'
     return terms[0] if len(terms) == 1 else '(+ ' + ' '.join(terms) + ')'
+
+
+def ensures_index0_end(wp, idx, r):
+    """END-INCLUSIVE contract of index0(dims, i) / get_index0<0>(dims, i): for 0 <= i <= dims[0] (one past the last row is
+    allowed, as tslice(begin == dims[0], end == dims[0]) needs it) the offset is i * P_1, lies in [0, size] and nothing
+    overflows.  The code's own assert (i < dims[0]) is stronger; it is kept as a separate obligation at the call sites."""
+    return [('offset == i * P_1', f'(= {r} {F(wp, 0, idx)})'), ('0 <= offset <= size', f'(and (<= 0 {r}) (<= {r} {wp.P[0]}))')]
 
 
 def ensures_get_index(wp, zero, k, idx, r):
@@ -73,6 +85,13 @@ def h_get_index(zero):
         idx = [wp.ev(a) for a in args[1:]]
         if not zero and k + len(idx) != wp.R:
             raise nvwp.Unsupported(f'get_index<{k}> with {len(idx)} indices on rank {wp.R}')
+        if getattr(wp, 'end_inclusive', False) and zero and k == 0 and len(idx) == 1:
+            d = wp.env[f'{wp.dims_name}.0'].t
+            wp.oblige('callee get_index0<0> end-inclusive precondition: 0 <= index <= dims[0]', f'(and (<= 0 {idx[0].t}) (<= {idx[0].t} {d}))', n)
+            r = wp.fresh('Int', 'get_index0', 'long')
+            for _, claim in ensures_index0_end(wp, [idx[0].t], r.t):
+                wp.assume(claim)
+            return r
         for j, v in enumerate(idx):     # callee precondition -> obligation at the call site
             d = wp.env[f'{wp.dims_name}.{k + j}'].t
             wp.oblige(f'callee get_index{"0" if zero else ""}<{k}> precondition: index {j} in range', f'(and (<= 0 {v.t}) (< {v.t} {d}))', n)
@@ -101,9 +120,10 @@ CALLS = [(r'^get\|', h_std_get), (r'^product\|', h_product), (r'^get_index\|', h
 MEMBERS = [(r'^fill\|std::array', h_array_fill)]
 
 
-def mk(name, decl, select, R, post, about, idx_names=None):
+def mk(name, decl, select, R, post, about, idx_names=None, signed=False, end_inclusive=False):
     docs, fn = load(TU, FLT, decl, select)
     wp = IdEnvWP(name, calls=CALLS, members=MEMBERS, bindings=nvwp.template_bindings(docs, fn))
+    wp.end_inclusive = end_inclusive
     keys = wp.bind_params(fn)
     idx = []
     for key, p in keys:
@@ -112,7 +132,7 @@ def mk(name, decl, select, R, post, about, idx_names=None):
             if key == 'dimsx':
                 declare_array(wp, key, n)
             else:
-                setup_dims(wp, n, key)
+                setup_dims(wp, n, key, signed=signed)
         else:
             wp.env[key] = wp.fresh('Int', key, 'long')
             wp.assume(wp.in_range(wp.env[key].t, 'long'))
@@ -153,6 +173,8 @@ def build(tier):
             def post(wp, rv, k=k):
                 return [(f'product<{k},{wp.R}> == prod(dims[{k}:])', f'(= {rv.t} {wp.P[k]})')]
             add(mk(f'product<{k},{R}>', 'product', sel([k, R], 1), R, post, 'suffix product of the dimensions'))
+            if R <= 4:
+                add(mk(f'product<{k},{R}>/signed', 'product', sel([k, R], 1), R, post, 'suffix product of extents of either sign (reshape)', signed=True))
         # get_index<k, R>(dims, i_k, ..., i_{R-1}) and get_index0<k, R>(dims, i_k, .., i_{k+m-1})
         for zero in (False, True):
             nm = 'get_index0' if zero else 'get_index'
@@ -221,8 +243,26 @@ def build(tier):
         def post_size(wp, rv):
             return [('size == prod(dims)', f'(= {rv.t} {wp.P[0]})'), ('size >= 0', f'(>= {rv.t} 0)')]
         add(mk(f'size<{R}>', 'size', sel([R], 1), R, post_size, 'number of elements'))
+        if R <= 4:
+            def post_size_signed(wp, rv):
+                return [('size == prod(dims)', f'(= {rv.t} {wp.P[0]})')]
+            add(mk(f'size<{R}>/signed', 'size', sel([R], 1), R, post_size_signed, 'product of extents of either sign (reshape)', signed=True))
+
+            # end-inclusive contract of index0(dims, i): i == dims[0] allowed (tslice(begin == end == dims[0]))
+            def post_end(wp, rv):
+                return ensures_index0_end(wp, wp.idx, rv.t)
+
+            def setup_end(wp):
+                wp.assume(f'(and (<= 0 {wp.idx[0]}) (<= {wp.idx[0]} {wp.env[f"{wp.dims_name}.0"].t}))')
+            post_end.setup = setup_end
+            add(mk(f'get_index0<0,{R}>/1 end-inclusive', 'get_index0', sel([0, R], 2), R, post_end, 'offset of a row index in [0, dims[0]]', end_inclusive=True))
+            add(mk(f'index0<{R}>/1 end-inclusive', 'index0', sel([R], 2), R, post_end, 'offset of a row index in [0, dims[0]]', end_inclusive=True))
 
     vcs += lemmas()
+    import tspec
+    tv, tf = tspec.build()
+    vcs += tv
+    fns += tf
     return {
         'targets': [], 'vcs': vcs, 'functions': fns,
         'decided': ['index/index0/size/dims0 and every recursion level of get_index/get_index0/product/get_dims0 for ranks 1..5 equal the row-major spec functions; no intermediate overflows given suffix products <= 2^62',
